@@ -86,7 +86,19 @@ pub fn oracle_files(ctx: &mut Ctx) {
         let f = std::fs::File::options().write(true).open(&inp).unwrap();
         f.set_modified(old).unwrap();
         drop(f);
-        let dest = rng.below(3);
+        // 3: a destination that is the input file under another name - `sub/../in.png`, a symbolic link, a hard link -
+        // which no comparison of path spellings recognises as "in place"
+        let dest = rng.below(4);
+        let alias: PathBuf = if dest == 3 {
+            let kind = rng.below(3);
+            st.count(&format!("aliased_destination_kind{}", kind));
+            let _ = std::fs::remove_file(dir.join("link.png"));
+            match kind {
+                0 => { std::fs::create_dir_all(dir.join("sub")).unwrap(); dir.join("sub").join("..").join("in.png") }
+                1 => { std::os::unix::fs::symlink(&inp, dir.join("link.png")).unwrap(); dir.join("link.png") }
+                _ => { std::fs::hard_link(&inp, dir.join("link.png")).unwrap(); dir.join("link.png") }
+            }
+        } else { PathBuf::new() };
         let o = case.opts.to_oxi();
         let preserve = rng.chance(1, 3);
         if preserve { st.count("preserve_attrs"); }
@@ -100,6 +112,7 @@ pub fn oracle_files(ctx: &mut Ctx) {
         let outfile = match dest {
             0 => OutFile::Path { path: None, preserve_attrs: preserve },
             1 => OutFile::Path { path: Some(outp.clone()), preserve_attrs: preserve },
+            3 => OutFile::Path { path: Some(alias.clone()), preserve_attrs: preserve },
             _ => OutFile::None,
         };
         st.count(&format!("dest{}", dest));
@@ -158,6 +171,20 @@ pub fn oracle_files(ctx: &mut Ctx) {
                             st.fail("larger", format!("destination has {} bytes, input {}", b.len(), case.input.len()), replay);
                         }
                     }
+                }
+            }
+            3 => {
+                // whatever the destination is called, the file ends up as the library's result: strictly smaller, or the
+                // very bytes it had
+                let lib = match run_case(&case.input, &case.opts) { Outcome::Ok(l) => Some(l), _ => None };
+                let via_alias = std::fs::read(&alias).unwrap_or_default();
+                if via_alias != after {
+                    st.fail("alias-diverged", "the destination no longer names the input file's content".into(), replay.clone());
+                }
+                match lib {
+                    Some(l) if after == l => st.count(if l == case.input { "alias_kept_original" } else { "alias_smaller" }),
+                    Some(l) => st.fail("aliased-destination", format!("destination is the input under another name: the file holds {} bytes, the library's result has {} (input {})", after.len(), l.len(), case.input.len()), replay),
+                    None => {}
                 }
             }
             _ => {
